@@ -101,7 +101,7 @@ FORMAT_VERDICT = {"a@b.co": True, "not-an-email": False, "https://example.com/x"
 
 # how the member under test is reached from the top-level request type
 PLACEMENTS = ["direct", "direct_required", "in_member", "in_optional_member", "in_array_items", "in_boxed_recursive", "two_levels", "outer_first",
-              "twin_loose_first", "twin_loose_last", "in_recursive_array"]
+              "twin_loose_first", "twin_loose_last", "in_recursive_array", "allof_refines", "via_named_array"]
 CONSTRAINT_KEYS = ("minLength", "maxLength", "minimum", "maximum", "exclusiveMinimum", "exclusiveMaximum", "pattern", "minItems", "maxItems", "format")
 KW_MEMBER_NAMES = ["title", "description", "example", "examples", "default", "plain"]
 
@@ -152,6 +152,17 @@ def build_spec(msch, placement):
     elif placement == "in_recursive_array":
         schemas["Top"] = {"type": "object", "properties": {"m": msch, "children": {"type": "array", "items": {"$ref": "#/components/schemas/Top"}}}}
         path = ["children", 0, "children", 0, "m"]
+    elif placement == "allof_refines":
+        # the usual refinement idiom: a referenced base declares the member loosely, a later allOf member tightens it
+        schemas["Named"] = {"type": "object", "properties": {"m": loosened(msch), "other": {"type": "string"}}}
+        schemas["Top"] = {"allOf": [{"$ref": "#/components/schemas/Named"}, {"type": "object", "properties": {"m": msch}}]}
+        path = ["m"]
+    elif placement == "via_named_array":
+        # the member is reached through a NAMED array schema (a $ref to `array of $ref Inner`)
+        schemas["Inner"] = inner
+        schemas["InnerList"] = {"type": "array", "items": {"$ref": "#/components/schemas/Inner"}}
+        schemas["Top"] = {"type": "object", "properties": {"list": {"$ref": "#/components/schemas/InnerList"}}}
+        path = ["list", 0, "m"]
     elif placement in ("twin_loose_first", "twin_loose_last"):
         # the same inline object twice, the other copy without the constraints; the member is named like a schema
         # annotation keyword: the two inline types must not be merged (each site enforces its own constraints)
@@ -182,7 +193,7 @@ def main(tier, seed, replay=None):
     mem = members()
     cases = []
     for (key, msch, vals) in mem:
-        pls = PLACEMENTS if tier != "quick" else ["direct", "direct_required", "outer_first"] + rng.sample(PLACEMENTS[2:7], 2) + [rng.choice(PLACEMENTS[8:10]), rng.choice(PLACEMENTS[10:])]
+        pls = PLACEMENTS if tier != "quick" else ["direct", "direct_required", "outer_first"] + rng.sample(PLACEMENTS[2:7], 2) + [rng.choice(PLACEMENTS[8:10]), PLACEMENTS[10], rng.choice(PLACEMENTS[11:])]
         for pl in pls:
             cases.append({"member": key, "schema": msch, "values": vals, "placement": pl})
     if replay:
@@ -288,7 +299,7 @@ def main(tier, seed, replay=None):
     res.counts.update({"evaluations": len(cases), "distinct_nontrivial": len(ar.cases), "comparisons": n_probe, "probes": n_probe,
                        "parameter_override_comparisons": n_override, "unsound_observations": n_sound, "incomplete_observations": n_complete, "traces_validated_against_impl": len(ar.cases),
                        "exhaustive": tier != "quick",
-                       "rule": "constraint combinations (string lengths incl. multi-byte at the limits, integer ranges for int32 / int64 / unformatted with inclusive, exclusive, single-point, whole-range and out-of-range bounds, float ranges, patterns, array lengths, item constraints, email / uri) x placements (direct, required, in a member, in an optional member, in array items, in a boxed recursive member, through recursive array items (map values are not among the positions the property names: they carry no nested validation), two levels down, next to an unconstrained twin of the same inline object whose member is named like an annotation keyword; all in the thorough tier) x boundary values (bound-1, bound, bound+1, type limits); compiled validate() verdict vs a JSON Schema oracle restricted to the listed keywords, both directions; plus: an operation-level parameter that overrides a looser path-item parameter yields the same request struct as the operation-level declaration alone (path / query / header); plus the syntactic check that client methods validate first"})
+                       "rule": "constraint combinations (string lengths incl. multi-byte at the limits, integer ranges for int32 / int64 / unformatted with inclusive, exclusive, single-point, whole-range and out-of-range bounds, float ranges, patterns, array lengths, item constraints, email / uri) x placements (direct, required, in a member, in an optional member, in array items, in a boxed recursive member, through recursive array items, a named array schema, a base member tightened by a later allOf member (map values are not among the positions the property names: they carry no nested validation), two levels down, next to an unconstrained twin of the same inline object whose member is named like an annotation keyword; all in the thorough tier) x boundary values (bound-1, bound, bound+1, type limits); compiled validate() verdict vs a JSON Schema oracle restricted to the listed keywords, both directions; plus: an operation-level parameter that overrides a looser path-item parameter yields the same request struct as the operation-level declaration alone (path / query / header); plus the syntactic check that client methods validate first"})
     for c in cases[:4]:
         res.sample({"member": c["member"], "placement": c["placement"], "values": len(c["values"])})
     res.cov["trusted_base"] = vlib.COMMON_TRUSTED + [
